@@ -22,7 +22,9 @@ let gen_segments r =
     let s =
       match rint r 10 with
       | 0 | 1 | 2 | 3 -> SText (b (gen_text r ~maxparts:5))
-      | 4 | 5 -> STag (OComment, b (pick r [| ""; " c "; "{{ a }}"; "{% if x %}"; " # } "; "\xff{"; " {# nested "; "a\nb" |]), false)
+      | 4 | 5 -> STag (OComment, b (pick r [| ""; " c "; "{{ a }}"; "{% if x %}"; " # } "; "\xff{"; " {# nested "; "a\nb";
+                                              (* quotes without a partner: a comment is not an expression *)
+                                              " it's "; " isn't "; " 5\" wide "; "'"; "\""; " '}} "; " \"%} x"; " {{ 'a }} " |]), false)
       | _ ->
           let name = pick r [| "a"; "b"; "c"; "d"; "zz" |] in
           let sp1 = pick r [| ""; " "; "  "; "\n" |] and sp2 = pick r [| ""; " "; "\t" |] in
